@@ -564,6 +564,7 @@ func (i *indexedTableRefIter) Next(rec record) (bool, error) {
 		}
 
 		if bytes.Compare(ref.Value, i.oid) == 0 || bytes.Compare(ref.TargetValue, i.oid) == 0 {
+			ref.UpdateIndex += i.r.header.MinUpdateIndex
 			return true, nil
 		}
 	}
@@ -574,7 +575,10 @@ func (r *Reader) RefsFor(oid []byte) (*Iterator, error) {
 	if r.offsets[blockTypeObj].Present {
 		return r.refsForIndexed(oid)
 	}
+	return r.refsForLinear(oid)
+}
 
+func (r *Reader) refsForLinear(oid []byte) (*Iterator, error) {
 	it, err := r.start(blockTypeRef, false)
 	if err != nil {
 		return nil, err
@@ -595,6 +599,11 @@ func (r *Reader) refsForIndexed(oid []byte) (*Iterator, error) {
 		return nil, err
 	}
 
+	if it == nil {
+		// beyond the last object ID in the index.
+		return &Iterator{&emptyIterator{}}, nil
+	}
+
 	got := objRecord{}
 	ok, err := it.Next(&got)
 	if err != nil {
@@ -602,6 +611,11 @@ func (r *Reader) refsForIndexed(oid []byte) (*Iterator, error) {
 	}
 	if !ok || got.key() != want.key() {
 		return &Iterator{&emptyIterator{}}, nil
+	}
+	if len(got.Offsets) == 0 {
+		// The positions did not fit in the index block and were
+		// omitted by the writer.
+		return r.refsForLinear(oid)
 	}
 
 	tr := &indexedTableRefIter{
